@@ -405,12 +405,23 @@ class Enc:
         self.cp = {}      # (conv, lexical) -> py token | None (raises)
         self.qattrs = {XSI_TYPE}
         self.qtags = set()
+        # element tags / attribute names are numbers in the model (0 = xsi:type); schema names first, in sorted order
+        self.names = {XSI_TYPE: 0}
+        for nm in sorted({e['xml'] for ce in tab.entries for e in ce['props'] if e.get('xml')}
+                         | {clark(qname_for(c)) for c in tab.clist}):
+            self.names.setdefault(nm, len(self.names))
         for ce in tab.entries:
             for e in ce['props']:
                 if e['kind'] == 'attr' and e['conv'] == 'QName':
                     self.qattrs.add(e['xml'])
                 if e['kind'] in ('text', 'textList') and (e['conv'] == 'QName' or e.get('style') == 'enumqname') and e['xml']:
                     self.qtags.add(e['xml'])
+
+    def nid(self, name) -> str:
+        return str(self.names.setdefault(name, len(self.names)))
+
+    def onid(self, name) -> str:
+        return '-' if name is None else self.nid(name)
 
     # ---- converters (the real ones)
     def lex_of(self, p, e, item):
@@ -552,9 +563,10 @@ class Enc:
             text = ''
         if not raw and node.tag in self.qtags and text:
             text = ' '.join(self._resolve(t, node.nsmap) for t in text.split())
-        out = ['x', H(node.tag), str(len(attrs))]
+        attrs = sorted((int(self.nid(k)), v) for k, v in attrs)
+        out = ['x', self.nid(node.tag), str(len(attrs))]
         for k, v in attrs:
-            out += [H(k), H(v)]
+            out += [str(k), H(v)]
         out += [H(text), str(len(kids))]
         for c in kids:
             out += self.xml(c, raw)
@@ -564,26 +576,26 @@ class Enc:
 def kind_tokens(enc: Enc, tab: Table, p, e) -> list:
     k = e['kind']
     if k == 'attr':
-        return ['attr', H(e['xml']), H(e['conv']), b(e['optional']), b(e['volatile'])]
+        return ['attr', enc.nid(e['xml']), H(e['conv']), b(e['optional']), b(e['volatile'])]
     if k == 'attrList':
-        return ['attrList', H(e['xml']), H(e['conv']), b(e['optional'])]
+        return ['attrList', enc.nid(e['xml']), H(e['conv']), b(e['optional'])]
     if k == 'text':
         style = {'plain': 'plain', 'enumqname': 'enumQName', 'qname': 'qname', 'date': 'date'}[e['style']]
         d = p._default_py_value
-        return ['text', opt_h(e['xml']), H(e['conv']), b(e['optional']), b(e['minlen']), style,
+        return ['text', enc.onid(e['xml']), H(e['conv']), b(e['optional']), b(e['minlen']), style,
                 '-' if (d is None or style != 'enumQName') else H(enc.scalar(p, e, d))]
     if k == 'textList':
-        return ['textList', opt_h(e['xml']), H(e['conv']), b(e['optional'])]
+        return ['textList', enc.onid(e['xml']), H(e['conv']), b(e['optional'])]
     if k == 'subTextList':
-        return ['subTextList', H(e['xml']), H(e['conv'])]
+        return ['subTextList', enc.nid(e['xml']), H(e['conv'])]
     if k == 'sub':
         d = p._default_py_value
-        return ['sub', opt_h(e['xml']), str(max(e['cls'], 0)), b(e['optional']), b(e['container']), b(e['skip_empty']), str(e['dispatch']),
+        return ['sub', enc.onid(e['xml']), str(max(e['cls'], 0)), b(e['optional']), b(e['container']), b(e['skip_empty']), str(e['dispatch']),
                 *(['-'] if d is None or type(d) not in tab.index else enc.val(d))]
     if k == 'subList':
-        return ['subList', H(e['xml']), str(max(e['cls'], 0)), b(e['container']), str(e['dispatch'])]
+        return ['subList', enc.nid(e['xml']), str(max(e['cls'], 0)), b(e['container']), str(e['dispatch'])]
     if k == 'raw':
-        return ['raw', opt_h(e['xml']), {'ext': 'ext', 'any': 'any', 'anylist': 'anyList'}[e['style']], b(e['optional'])]
+        return ['raw', enc.onid(e['xml']), {'ext': 'ext', 'any': 'any', 'anylist': 'anyList'}[e['style']], b(e['optional'])]
     raise ValueError(k)
 
 
@@ -630,6 +642,10 @@ def lbool(x) -> str:
     return 'true' if x else 'false'
 
 
+def lnopt(enc, name) -> str:
+    return 'none' if name is None else f'(some {enc.nid(name)})'
+
+
 def lean_val(toks, i=0):
     """driver value tokens -> Lean term of type Val (only none / atom / list / obj occur in defaults)"""
     t = toks[i]
@@ -656,27 +672,27 @@ def lean_val(toks, i=0):
 def lean_kind(enc: Enc, tab: Table, p, e) -> str:
     k = e['kind']
     if k == 'attr':
-        return f'.attr {lstr(e["xml"])} {lstr(e["conv"])} {lbool(e["optional"])} {lbool(e["volatile"])}'
+        return f'.attr {enc.nid(e["xml"])} {lstr(e["conv"])} {lbool(e["optional"])} {lbool(e["volatile"])}'
     if k == 'attrList':
-        return f'.attrList {lstr(e["xml"])} {lstr(e["conv"])} {lbool(e["optional"])}'
+        return f'.attrList {enc.nid(e["xml"])} {lstr(e["conv"])} {lbool(e["optional"])}'
     if k == 'text':
         style = {'plain': '.plain', 'enumqname': '.enumQName', 'qname': '.qname', 'date': '.date'}[e['style']]
         d = p._default_py_value
         dd = None if (d is None or e['style'] != 'enumqname') else enc.scalar(p, e, d)
-        return f'.text {lopt(e["xml"])} {lstr(e["conv"])} {lbool(e["optional"])} {lbool(e["minlen"])} {style} {lopt(dd)}'
+        return f'.text {lnopt(enc, e["xml"])} {lstr(e["conv"])} {lbool(e["optional"])} {lbool(e["minlen"])} {style} {lopt(dd)}'
     if k == 'textList':
-        return f'.textList {lopt(e["xml"])} {lstr(e["conv"])} {lbool(e["optional"])}'
+        return f'.textList {lnopt(enc, e["xml"])} {lstr(e["conv"])} {lbool(e["optional"])}'
     if k == 'subTextList':
-        return f'.subTextList {lstr(e["xml"])} {lstr(e["conv"])}'
+        return f'.subTextList {enc.nid(e["xml"])} {lstr(e["conv"])}'
     if k == 'sub':
         d = p._default_py_value
         dv = 'none' if (d is None or type(d) not in tab.index) else f'(some {lean_val(enc.val(d))[0]})'
-        return (f'.sub {lopt(e["xml"])} {max(e["cls"], 0)} {lbool(e["optional"])} {lbool(e["container"])} {lbool(e["skip_empty"])} '
+        return (f'.sub {lnopt(enc, e["xml"])} {max(e["cls"], 0)} {lbool(e["optional"])} {lbool(e["container"])} {lbool(e["skip_empty"])} '
                 f'{e["dispatch"]} {dv}')
     if k == 'subList':
-        return f'.subList {lstr(e["xml"])} {max(e["cls"], 0)} {lbool(e["container"])} {e["dispatch"]}'
+        return f'.subList {enc.nid(e["xml"])} {max(e["cls"], 0)} {lbool(e["container"])} {e["dispatch"]}'
     if k == 'raw':
-        return f'.raw {lopt(e["xml"])} {dict(ext=".ext", any=".any", anylist=".anyList")[e["style"]]} {lbool(e["optional"])}'
+        return f'.raw {lnopt(enc, e["xml"])} {dict(ext=".ext", any=".any", anylist=".anyList")[e["style"]]} {lbool(e["optional"])}'
     raise ValueError(k)
 
 
@@ -697,6 +713,9 @@ def translate(ctx):
     out.append('def classes : List ClsE := [' + ', '.join(names) + ']')
     out.append('def types : List (Nat × String × Nat) := [\n  ' + ',\n  '.join(f'({r}, {lstr(q)}, {c})' for r, q, c in tab.types) + ']')
     out.append('def schema : Schema := ⟨classes, types⟩')
+    out.append('/-- element tags / attribute names behind the numbers used above (index = number) -/')
+    table_names = sorted(enc.names, key=enc.names.get)
+    out.append('def nameTable : List String := [\n  ' + ',\n  '.join(lstr(n) for n in table_names) + ']')
     out.append('end Sdc.Generated.Schema\n')
     core.write_if_changed(core.GENERATED + '/Schema.lean', '\n'.join(out))
     ctx.notes['schema'] = {'classes': len(tab.entries), 'members': sum(len(c['props']) for c in tab.entries), 'xsi_type_entries': len(tab.types),
@@ -873,9 +892,9 @@ def run(ctx):
             ctx.count('corr:value-with-class-outside-table')
             continue
         if node is None:
-            ops.append((f'w {ci} {H(tag)} ' + ' '.join(vt), 'err', case))
+            ops.append((f'w {ci} {enc.nid(tag)} ' + ' '.join(vt), 'err', case))
             continue
-        ops.append((f'w {ci} {H(tag)} ' + ' '.join(vt), 'ok ' + ' '.join(enc.xml(node)), case))
+        ops.append((f'w {ci} {enc.nid(tag)} ' + ' '.join(vt), 'ok ' + ' '.join(enc.xml(node)), case))
         re_node = etree.fromstring(etree.tostring(node))
         try:
             back = parse_node(type(obj), re_node)
@@ -883,6 +902,8 @@ def run(ctx):
         except Exception:  # noqa: BLE001
             expect = 'err'
         ops.append((f'r {ci} ' + ' '.join(enc.xml(re_node)), expect, case))
+    # ---- absent members that have a class-level default, and malformed lexical forms (read side)
+    extra_cases(ctx, tab, enc, ops)
     lines += enc.codec_lines()
     n_pre = len(lines)
     lines += [o[0] for o in ops]
@@ -897,6 +918,84 @@ def run(ctx):
             if got != expect:
                 what = 'writeCls(v) == as_etree_node(v)' if line[0] == 'w' else 'readCls(x) == from_node(x)'
                 ctx.disagree(what, case, _diff_tokens(got, expect), _diff_tokens(expect, got))
+
+
+_BAD_LEXICALS = [' 5 ', 'abc', '', '+1', '1.0', 'TRUE', 'true', '-3', '٣', 'P1D', '1e3', 'On', ' ']
+
+
+def extra_cases(ctx, tab: Table, enc: Enc, ops):
+    rng = ctx.subrng('extra')
+    for ci, cls in enumerate(tab.clist):
+        if tab.keys[ci] in NO_MODEL:
+            continue
+        pl, el = tab.props[ci], tab.entries[ci]['props']
+        # (1) optional members with a class-level default, absent in the XML: the read value is a copy of the default
+        dflt = [(k, n, p, e) for k, ((n, p), e) in enumerate(zip(pl, el)) if e.get('has_default') and e['optional']
+                and (e['kind'] == 'sub' or e.get('style') == 'enumqname')]
+        for k, name, p, e in dflt:
+            g = Gen(tab, ctx.subrng('absent', ci, k), max_depth=1)
+            try:
+                obj = g.instance(cls)
+                setattr(obj, name, None)
+                node = serialize(obj)
+            except Exception:  # noqa: BLE001
+                ctx.count('absent-default:skipped')
+                continue
+            case = {'class': tab.keys[ci], 'absent_member': name, 'sub': [ci, k]}
+            re_node = etree.fromstring(etree.tostring(node))
+            try:
+                back = parse_node(cls, re_node)
+            except Exception as ex:  # noqa: BLE001
+                ctx.fail(f'read-raises:{tab.keys[ci]}:{_exc_sig(ex)}', f'{tab.keys[ci]} without optional {name} cannot be read: {ex}', case)
+                continue
+            got = sh.actual(back, p)
+            ctx.count('absent-default:checked')
+            ctx.case({'absent-default': tab.keys[ci], 'member': name}, nontrivial=True)
+            if got is p._default_py_value:
+                ctx.fail(f'absent-default-shared:{tab.keys[ci]}.{name}', f'reading {tab.keys[ci]} without {name} hands out the class-level default '
+                         f'object itself', case)
+            elif canon(got) != canon(p._default_py_value):
+                ctx.fail(f'absent-default:{tab.keys[ci]}.{name}', f'reading {tab.keys[ci]} without optional {name} gives {canon(got)[:100]} instead of the '
+                         f'declared default {canon(p._default_py_value)[:100]}', case)
+            try:
+                ops.append((f'w {ci} {enc.nid(clark(qname_for(cls)))} ' + ' '.join(enc.val(obj)), 'ok ' + ' '.join(enc.xml(node)), case))
+                ops.append((f'r {ci} ' + ' '.join(enc.xml(re_node)), 'ok ' + ' '.join(enc.val(back)), case))
+            except KeyError:
+                pass
+        # (2) a lexical form the member's converter may reject: model and implementation must agree on accept / reject
+        attrs = [(n, p, e) for (n, p), e in zip(pl, el) if e['kind'] == 'attr' and not e['volatile'] and e['conv'] != 'QName']
+        if not attrs:
+            continue
+        for k in range(2):
+            r2 = ctx.subrng('bad', ci, k)
+            g = Gen(tab, r2, max_depth=1)
+            try:
+                obj = g.instance(cls)
+                node = serialize(obj)
+            except Exception:  # noqa: BLE001
+                continue
+            if node is None:
+                continue
+            name, p, e = r2.choice(attrs)
+            lex = r2.choice(_BAD_LEXICALS)
+            re_node = etree.fromstring(etree.tostring(node))
+            re_node.set(p._attribute_name, lex)
+            try:
+                enc.cp[(e['conv'], lex)] = tok(enc.py_of(p, e, lex))
+            except Exception:  # noqa: BLE001
+                enc.cp[(e['conv'], lex)] = None
+            case = {'class': tab.keys[ci], 'malformed': [name, lex]}
+            try:
+                back = parse_node(cls, re_node)
+                expect = 'ok ' + ' '.join(enc.val(back))
+                ctx.count('malformed:accepted')
+            except Exception:  # noqa: BLE001
+                expect = 'err'
+                ctx.count('malformed:rejected')
+            try:
+                ops.append((f'r {ci} ' + ' '.join(enc.xml(re_node)), expect, case))
+            except KeyError:
+                pass
 
 
 def _unh(t):
